@@ -181,6 +181,28 @@ func Compare(db chain.DB, view map[string]map[string]string, buckets, keys []str
 		b = db.Bucket([]byte(bn))
 		pairs, dup, aliased := readAll(b)
 		wp := ref.Pairs(want)
+		// a consumer may leave the loop early (find-first, is-empty, take-N)
+		for _, stop := range []int{1, (len(wp) + 1) / 2} {
+			if stop < 1 || stop > len(wp) {
+				continue
+			}
+			n, pn := 0, any(nil)
+			func() {
+				defer func() { pn = recover() }()
+				for range b.Iter() {
+					n++
+					if n == stop {
+						break
+					}
+				}
+			}()
+			if pn != nil {
+				return "iter-early-exit-panic", fmt.Sprintf("bucket %q: leaving the Iter loop after %d of %d entries panicked: %v", bn, stop, len(wp), pn)
+			}
+			if n != stop {
+				return "iter-early-exit", fmt.Sprintf("bucket %q: Iter yielded %d entries before the consumer could stop at %d (model has %d)", bn, n, stop, len(wp))
+			}
+		}
 		if aliased != "" {
 			return "iter-yields-shared-memory", fmt.Sprintf("bucket %q: %s", bn, aliased)
 		}
